@@ -16,6 +16,13 @@ import numpy as np
 import common
 
 PROP = "C10"
+
+
+# everything the implementation may throw, except a real Ctrl-C (a bare BaseException subclass is caught
+# one level up, in safe_execute)
+import builtins
+_IMPL_EXC = (Exception, SystemExit, GeneratorExit) + tuple(
+    getattr(builtins, n) for n in ("BaseExceptionGroup",) if hasattr(builtins, n))
 HEADER = "From Coq Require Import ZArith List.\nImport ListNotations.\nFrom IBL.C10 Require Import Run."
 ONE = 2 ** 40          # analog values are exchanged with the model in units of 2^-40 V
 TRUSTED = [
@@ -96,6 +103,8 @@ def py_bits(v):
 # case execution: implementation + oracle + flat encodings
 # --------------------------------------------------------------------------
 class Result:
+    crash = None
+
     def __init__(self):
         self.inp = None        # flat model input
         self.out = None        # flat implementation output (same encoding as Run.v)
@@ -123,18 +132,27 @@ def exec_split(case):
     elif lay == "matrix":
         arr = arr.reshape(-1, case["ncol"])
     r.inp = [0] + [int(v) for v in vals]
+    before = np.array(arr, copy=True) if isinstance(arr, np.ndarray) else list(arr)
     try:
         out = spikeglx.split_sync(arr)
-    except Exception as e:
+        changed = (not np.array_equal(before, arr)) if isinstance(arr, np.ndarray) else (before != arr)
+        if changed:
+            r.bad.append(("split_sync modified its input array in place", {"kind": "split", "defect": "input_mutated"}))
+        if isinstance(out, np.ndarray) and isinstance(arr, np.ndarray) and out.size and np.shares_memory(out, arr):
+            r.bad.append(("split_sync returned a view of its input", {"kind": "split", "defect": "input_view"}))
+    except _IMPL_EXC as e:
         r.bad.append(("split_sync raised %r" % (e,), {"kind": "split", "defect": "exception"}))
         r.out = [-1]
         return r
-    r.out = [int(x) for x in np.asarray(out).ravel()]
     exp = [py_bits(v) for v in vals]
-    if out.shape != (len(vals), 16) or out.dtype != np.int8:
-        r.bad.append(("split_sync returned shape %s dtype %s for %d words" % (out.shape, out.dtype, len(vals)),
-                      {"kind": "split", "defect": "shape"}))
-    elif out.tolist() != exp:
+    if not isinstance(out, np.ndarray) or out.shape != (len(vals), 16) or out.dtype != np.int8:
+        r.bad.append(("split_sync returned %s (shape %s, dtype %s) for %d words; expected an int8 array (n, 16)" % (
+            type(out).__name__, getattr(out, "shape", None), getattr(out, "dtype", None), len(vals)),
+            {"kind": "split", "defect": "shape"}))
+        r.out = [-2]
+        return r
+    r.out = [int(x) for x in out.ravel()]
+    if out.tolist() != exp:
         i = next(i for i in range(len(vals)) if out[i].tolist() != exp[i])
         r.bad.append(("word %d decodes to %s, its bits are %s" % (vals[i], out[i].tolist(), exp[i]),
                       {"kind": "split", "defect": "bits"}))
@@ -147,6 +165,16 @@ def _sc(v, sc):
     q = Fraction(v) * sc
     assert q.denominator == 1, (v, sc)
     return int(q)
+
+
+def _guarded(r, tags, f, arr, *a, **k):
+    """call f(arr, ...) and check that it leaves its input alone."""
+    before = arr.copy()
+    out = f(arr, *a, **k)
+    if not np.array_equal(before, arr):
+        r.bad.append(("%s modified its input array in place" % f.__name__, dict(tags, defect="input_mutated")))
+        arr[...] = before
+    return out
 
 
 def _fronts_oracle_1d(x, step, rstep, fstep):
@@ -179,9 +207,9 @@ def exec_fronts1(case):
             # 0/1 train held in a container without a sign: bool (mode 2) or uint8 (mode 3)
             arr = np.array(x, dtype=np.bool_ if mode == 2 else np.uint8)
             res = {}
-            for name, f in (("fronts", lambda: utils.fronts(arr, **({} if dflt else {"step": step}), **kw)),
-                            ("rises", lambda: utils.rises(arr, **({} if dflt else {"step": rstep}), **kw)),
-                            ("falls", lambda: utils.falls(arr, **({} if dflt else {"step": fstep}), **kw))):
+            for name, f in (("fronts", lambda: _guarded(r, tags, utils.fronts, arr, **({} if dflt else {"step": step}), **kw)),
+                            ("rises", lambda: _guarded(r, tags, utils.rises, arr, **({} if dflt else {"step": rstep}), **kw)),
+                            ("falls", lambda: _guarded(r, tags, utils.falls, arr, **({} if dflt else {"step": fstep}), **kw))):
                 res[name] = _try(f)
             r.inp = [1, step, rstep, fstep, mode] + [int(v) for v in x]
             e_ind, e_sg, e_ri, e_fa = _fronts_oracle_1d(x, step, rstep, fstep)
@@ -213,13 +241,13 @@ def exec_fronts1(case):
         if mode == 0:
             key = int
             if dflt:
-                ind, sg = utils.fronts(arr, **kw)
-                ri = utils.rises(arr, **kw)
-                fa = utils.falls(arr, **kw)
+                ind, sg = _guarded(r, tags, utils.fronts, arr, **kw)
+                ri = _guarded(r, tags, utils.rises, arr, **kw)
+                fa = _guarded(r, tags, utils.falls, arr, **kw)
             else:
-                ind, sg = utils.fronts(arr, step=step, **kw)
-                ri = utils.rises(arr, step=rstep, **kw)
-                fa = utils.falls(arr, step=fstep, **kw)
+                ind, sg = _guarded(r, tags, utils.fronts, arr, step=step, **kw)
+                ri = _guarded(r, tags, utils.rises, arr, step=rstep, **kw)
+                fa = _guarded(r, tags, utils.falls, arr, step=fstep, **kw)
             e_ind, e_sg, e_ri, e_fa = _fronts_oracle_1d(x, step, rstep, fstep)
             shapes_ok = ind.ndim == 1 and sg.ndim == 1 and ri.ndim == 1 and fa.ndim == 1
             got = ([int(i) for i in ind], [v for v in np.asarray(sg).tolist()], [int(i) for i in ri],
@@ -242,8 +270,8 @@ def exec_fronts1(case):
             r.nontrivial = len(e_ind) > 0
         else:
             # analog=True: only comparisons with the threshold matter -> order keys
-            ri = utils.rises(arr, step=rstep, analog=True, **kw)
-            fa = utils.falls(arr, step=fstep, analog=True, **kw)
+            ri = _guarded(r, tags, utils.rises, arr, step=rstep, analog=True, **kw)
+            fa = _guarded(r, tags, utils.falls, arr, step=fstep, analog=True, **kw)
             e_ri = [i for i in range(1, len(x)) if x[i] > rstep and not x[i - 1] > rstep]
             e_fa = [i for i in range(1, len(x)) if x[i] < fstep and not x[i - 1] < fstep]
             got = ([int(i) for i in ri], [int(i) for i in fa])
@@ -255,7 +283,7 @@ def exec_fronts1(case):
             r.inp = [1, 0, key(rstep), key(fstep), 1] + [key(v) for v in x]
             r.out = [len(got[0])] + got[0] + [len(got[1])] + got[1]
             r.nontrivial = len(e_ri) + len(e_fa) > 0
-    except Exception as e:
+    except _IMPL_EXC as e:
         r.bad.append(("fronts/rises/falls raised %r" % (e,), dict(tags, defect="exception")))
         r.out = [-1]
         if r.inp is None:
@@ -301,13 +329,13 @@ def exec_fronts2(case):
     try:
         if mode == 0:
             if case.get("defaults"):
-                ind, sg = utils.fronts(arr, **kw)
-                ri = utils.rises(arr, **kw)
-                fa = utils.falls(arr, **kw)
+                ind, sg = _guarded(r, tags, utils.fronts, arr, **kw)
+                ri = _guarded(r, tags, utils.rises, arr, **kw)
+                fa = _guarded(r, tags, utils.falls, arr, **kw)
             else:
-                ind, sg = utils.fronts(arr, step=step, **kw)
-                ri = utils.rises(arr, step=rstep, **kw)
-                fa = utils.falls(arr, step=fstep, **kw)
+                ind, sg = _guarded(r, tags, utils.fronts, arr, step=step, **kw)
+                ri = _guarded(r, tags, utils.rises, arr, step=rstep, **kw)
+                fa = _guarded(r, tags, utils.falls, arr, step=fstep, **kw)
             e_fr, e_ri, e_fa = _fronts_oracle_2d(X, ax, step, rstep, fstep)
             ok_shape = (np.asarray(ind).shape == (2, len(sg)) and np.asarray(ri).ndim == 2
                         and np.asarray(ri).shape[0] == 2 and np.asarray(fa).shape[0] == 2)
@@ -330,8 +358,8 @@ def exec_fronts2(case):
                 r.nontrivial = len(e_fr) > 0
             r.inp = [2, ax, _sc(step, sc), _sc(rstep, sc), _sc(fstep, sc), 0, nr, nc] + [_sc(v, sc) for v in x]
         else:
-            ri = utils.rises(arr, step=rstep, analog=True, **kw)
-            fa = utils.falls(arr, step=fstep, analog=True, **kw)
+            ri = _guarded(r, tags, utils.rises, arr, step=rstep, analog=True, **kw)
+            fa = _guarded(r, tags, utils.falls, arr, step=fstep, analog=True, **kw)
             B = [[1 if v > rstep else 0 for v in row] for row in X]
             C = [[1 if v < fstep else 0 for v in row] for row in X]
             _, e_ri, _ = _fronts_oracle_2d(B, ax, 1, 1, -1)
@@ -345,7 +373,7 @@ def exec_fronts2(case):
             r.inp = [2, ax, 0, key(rstep), key(fstep), 1, nr, nc] + [key(v) for v in x]
             r.out = [len(g_ri)] + [v for t in g_ri for v in t] + [len(g_fa)] + [v for t in g_fa for v in t]
             r.nontrivial = len(e_ri) + len(e_fa) > 0
-    except Exception as e:
+    except _IMPL_EXC as e:
         r.bad.append(("2-D fronts/rises/falls raised %r" % (e,), dict(tags, defect="exception")))
         r.out = [-1]
         if r.inp is None:
@@ -404,17 +432,23 @@ def analog_safety(D, sel, acols, gain_f, thr_eff, use_floor):
 
 
 def _enc_rows(a):
-    a = np.asarray(a)
-    if a.ndim != 2:
-        return [-3, a.ndim]
-    return [1, a.shape[0]] + [v for row in a.tolist() for v in [len(row)] + [int(q) for q in row]]
+    try:
+        a = np.asarray(a)
+        if a.ndim != 2 or a.dtype.kind not in "iub":
+            return [-3, a.ndim]
+        return [1, a.shape[0]] + [v for row in a.tolist() for v in [len(row)] + [int(q) for q in row]]
+    except _IMPL_EXC:
+        return [-4]
 
 
 def _enc_volts(a):
     if a is None:
         return [2]
-    a = np.asarray(a)
-    if a.ndim != 2:
+    try:
+        a = np.asarray(a, dtype=np.float64)
+    except _IMPL_EXC:
+        return [-4]
+    if a.ndim != 2 or not np.all(np.isfinite(a)):
         return [-3, a.ndim]
     out = [1, a.shape[0]]
     for row in a.tolist():
@@ -428,7 +462,7 @@ def _enc_volts(a):
 def _try(f):
     try:
         return f(), None
-    except Exception as e:       # noqa
+    except _IMPL_EXC as e:       # noqa
         return None, e
 
 
@@ -469,7 +503,11 @@ def exec_sync_read(case):
         p = write_recording(tmp, typ, counts, ns, data, range_max)
         if case.get("path_as_str"):
             p = str(p)
-        sr = spikeglx.Reader(p)
+        try:
+            sr = spikeglx.Reader(p)
+        except _IMPL_EXC as e:
+            r.bad.append(("spikeglx.Reader could not open a valid recording: %r" % (e,), dict(tags, defect="open")))
+            return r
         kwargs = {}
         if thr is not None:
             kwargs["threshold"] = thr
@@ -510,6 +548,18 @@ def exec_sync_read(case):
                 len(wcols), "; ".join("%s -> %s" % (n, "raises " + type(got[n][1]).__name__ if got[n][1] is not None
                                                     else "shape " + str(np.shape(got[n][0]))) for n in ("rs", "dg")))
             return r
+        # measured, not proved: the float32 percentile against the exact one, in units of 2^-24 * magnitude
+        an_v, an_e = got["an"]
+        if acols and sel and an_e is None and isinstance(an_v, np.ndarray) and an_v.shape == (len(sel), len(acols)):
+            pc, pe = _try(lambda: np.percentile(np.array(an_v, copy=True), 10, axis=0))
+            if pe is None:
+                worst = 0.0
+                for c, col in enumerate(acols):
+                    vals = [Fraction(int(D[t, col])) * gain_f for t in sel]
+                    pex = exact_floor(vals)[0]
+                    big = max([abs(v) for v in vals] + [abs(pex), Fraction(1, 1024)])
+                    worst = max(worst, float(abs(Fraction(float(pc[c])) - pex) / big * 2 ** 24))
+                r.info["floor_err_ulps"] = worst
         dig = [py_bits(D[t, wcols[0]]) for t in sel]
         for name, eb, this_thr in (("rs", exp_an, thr_eff), ("rd", exp_an_d, THR_DEFAULT)):
             val, exc = got[name]
@@ -543,8 +593,10 @@ def exec_sync_read(case):
         an2, exc = got["an"]
         if exc is not None:
             r.bad.append(("read_sync_analog raised %r" % (exc,), dict(tags, defect="analog_api")))
-        elif (an2 is None) != (len(acols) == 0) or (an2 is not None and an2.shape != (len(sel), len(acols))):
-            r.bad.append(("read_sync_analog shape/None does not match %d analog lines" % len(acols),
+        elif (an2 is None) != (len(acols) == 0) or (an2 is not None and (
+                not isinstance(an2, np.ndarray) or an2.shape != (len(sel), len(acols)) or an2.dtype != np.float32)):
+            r.bad.append(("read_sync_analog is not None / a float32 (n, %d) array as the recording's analog lines "
+                          "require" % len(acols),
                           dict(tags, defect="analog_api")))
         elif an2 is not None:
             expv = np.array([[float(Fraction(int(D[t, col])) * gain_f) for col in acols] for t in sel],
@@ -599,13 +651,24 @@ def exec_ttl(case):
     sr = None
     try:
         p = write_recording(tmp, typ, counts, ns, D.ravel().tolist(), 4)
-        sr = spikeglx.Reader(p)
+        try:
+            sr = spikeglx.Reader(p)
+        except _IMPL_EXC as e:
+            r.bad.append(("spikeglx.Reader could not open a valid recording: %r" % (e,), dict(tags, defect="open")))
+            r.out = [-1]
+            return r
         try:
             s = sr.read_sync(slice(0, ns))
             if case.get("via_read"):
                 _, s2 = sr.read(slice(0, ns))
                 if not np.array_equal(s, s2):
                     r.bad.append(("Reader.read(...)[1] differs from read_sync", dict(tags, defect="read_api")))
+            if not isinstance(s, np.ndarray) or s.ndim != 2 or s.shape[0] != ns or s.shape[1] < 16:
+                r.bad.append(("read_sync returned %s of shape %s for %d samples" % (
+                    type(s).__name__, getattr(s, "shape", None), ns), dict(tags, defect="shape")))
+                r.out = [-2]
+                return r
+            s_before = s.copy()
             per = []
             for k in range(16):
                 ind, sg = utils.fronts(s[:, k])
@@ -625,7 +688,9 @@ def exec_ttl(case):
             flat0 = sorted((int(b), int(a), int(c)) for a, b, c in zip(i0[0], i0[1], s0))
             if flat != exp2 or flat0 != exp2:
                 r.bad.append(("2-D fronts over the 16 lines differ from the per-line fronts", dict(tags, defect="2d")))
-        except Exception as e:
+            if not np.array_equal(s, s_before):
+                r.bad.append(("front detection modified the sync array in place", dict(tags, defect="input_mutated")))
+        except _IMPL_EXC as e:
             r.bad.append(("reading / front detection raised %r" % (e,), dict(tags, defect="exception")))
             r.out = [-1]
             return r
@@ -667,13 +732,17 @@ def exec_nometa(case):
     try:
         p = tmp / "flat.bin"
         D.tofile(p)
-        sr = spikeglx.Reader(p)
+        try:
+            sr = spikeglx.Reader(p)
+        except _IMPL_EXC as e:
+            r.bad.append(("spikeglx.Reader could not open a flat binary: %r" % (e,), dict(tags, defect="open")))
+            return r
         try:
             s = sr.read_sync_digital(slice(0, ns))
             if s.shape != (ns, 16) or s.tolist() != [py_bits(v) for v in D[:, -1]]:
                 r.bad.append(("meta-less reader: read_sync_digital is not the last trace's bits",
                               dict(tags, defect="digital")))
-        except Exception as e:
+        except _IMPL_EXC as e:
             r.bad.append(("meta-less reader (nc=385, nsync=%s): read_sync_digital raised %r" % (sr.nsync, e),
                           dict(tags, defect="no_meta")))
         return r
@@ -692,6 +761,98 @@ EXEC = {"split": exec_split, "fronts1": exec_fronts1, "fronts2": exec_fronts2,
 
 def execute(case):
     return EXEC[case["kind"]](case)
+
+
+def safe_execute(case):
+    """execute(), never raising: whatever escapes (a BaseException subclass thrown by the implementation, a
+    canonicaliser choking on an unexpected return value) becomes a Result with .crash set."""
+    try:
+        return execute(case)
+    except BaseException as e:          # noqa
+        if isinstance(e, KeyboardInterrupt):
+            raise
+        import traceback
+        r = Result()
+        r.crash = "%r | %s" % (e, traceback.format_exc()[-1200:])
+        return r
+
+
+def _worker(chunk):
+    logging.disable(logging.CRITICAL)
+    return [(i, safe_execute(c)) for i, c in chunk]
+
+
+def run_cases(cases, budget_s, per_case_s=15, nproc=4, nchunk=16):
+    """Run the implementation side of all cases in worker processes, so that an implementation that
+    hangs or kills its process cannot hang or kill the check.  Returns (results by index, stuck cases,
+    number of cases not run).  Results do not depend on the split into processes."""
+    import multiprocessing as mp
+    import os
+    import time
+    mpc = mp.get_context("fork")
+    # scratch files of killed workers must not survive: everything goes under one directory removed at the end
+    base = common.tmpdir("C10_run_")
+    old_tmp = os.environ.get("TMPDIR")
+    os.environ["TMPDIR"] = str(base)
+    try:
+        return _run_cases(mp, mpc, time, cases, budget_s, per_case_s, nproc, nchunk)
+    finally:
+        if old_tmp is None:
+            os.environ.pop("TMPDIR", None)
+        else:
+            os.environ["TMPDIR"] = old_tmp
+        shutil.rmtree(base, ignore_errors=True)
+
+
+def _run_cases(mp, mpc, time, cases, budget_s, per_case_s, nproc, nchunk):
+    chunks = [[(i, c) for i, c in enumerate(cases) if i % nchunk == k] for k in range(nchunk)]
+    chunks = [ch for ch in chunks if ch]
+    deadline = time.time() + budget_s
+    results, pending = {}, []
+    pool = mpc.Pool(nproc)
+    try:
+        asyncs = [pool.apply_async(_worker, (ch,)) for ch in chunks]
+        procs = list(getattr(pool, "_pool", []))
+        # wait for completion, the deadline, or the death of a worker (a lost task would never complete)
+        while time.time() < deadline and not all(a.ready() for a in asyncs):
+            if any(p.exitcode is not None for p in procs):
+                time.sleep(1.0)          # let the surviving workers hand in what they have
+                deadline = time.time()
+                break
+            time.sleep(0.1)
+        for ch, a in zip(chunks, asyncs):
+            try:
+                if not a.ready():
+                    raise mp.TimeoutError()
+                for i, r in a.get(timeout=1.0):
+                    results[i] = r
+            except BaseException as e:      # noqa  (mp.TimeoutError, a dead worker, an unpicklable result)
+                if isinstance(e, KeyboardInterrupt):
+                    raise
+                pending.append(ch)
+    finally:
+        pool.terminate()
+        pool.join()
+    stuck, notrun = [], 0
+    if pending:
+        todo = [ic for ch in pending for ic in ch]
+        pool = mpc.Pool(nproc)
+        try:
+            asyncs = [(i, c, pool.apply_async(_worker, ([(i, c)],))) for i, c in todo]
+            for i, c, a in asyncs:
+                if len(stuck) >= 3:
+                    notrun += 1
+                    continue
+                try:
+                    results[i] = a.get(timeout=per_case_s)[0][1]
+                except BaseException as e:      # noqa
+                    if isinstance(e, KeyboardInterrupt):
+                        raise
+                    stuck.append((i, c, type(e).__name__))
+        finally:
+            pool.terminate()
+            pool.join()
+    return results, stuck, notrun
 
 
 # --------------------------------------------------------------------------
@@ -1031,18 +1192,28 @@ def run(ctx):
     words_seen = set()
     cont_seen = {}
     inexact = 0
+    floor_err = 0.0
     observations = []
-    for case in cases:
-        try:
-            res = execute(case)
-        except Exception as e:            # harness-side problem: report as a disagreement with the input
-            ctx.disagree("harness could not execute the case: %r" % (e,), case, {"kind": case["kind"]})
+    results, stuck, notrun = run_cases(cases, budget_s=1200 if ctx.thorough() else 90)
+    for i, c, why in stuck:
+        ctx.fail("the implementation did not return within 15 s, or killed its process (%s)" % why, c,
+                 {"kind": c["kind"], "defect": "hang_or_crash"})
+    ctx.measurements["cases_not_run_after_a_hang"] = notrun
+    for ci, case in enumerate(cases):
+        res = results.get(ci)
+        if res is None:
+            continue
+        if res.crash:
+            ctx.fail("the implementation's behaviour on this input could not even be canonicalised: %s" % res.crash,
+                     case, {"kind": case["kind"], "defect": "uncanonical_output"})
             continue
         dist[case["kind"]] = dist.get(case["kind"], 0) + 1
         for what, tags in res.bad:
             ctx.fail(what, case, tags)
         if res.info.get("unsafe"):
             inexact += 1
+        if "floor_err_ulps" in res.info:
+            floor_err = max(floor_err, res.info["floor_err_ulps"])
         if res.info.get("observation"):
             observations.append(res.info["observation"])
         if case["kind"] == "split" and case.get("exhaustive") and not res.bad:
@@ -1059,6 +1230,10 @@ def run(ctx):
     if inexact:
         ctx.disagree("%d generated recordings have a sample within float32 rounding of floor + threshold "
                      "(generator guarantee broken)" % inexact, {"kind": "harness"})
+    ctx.measurements["max_float32_percentile_error_in_ulps_of_magnitude (recordings are kept 64 away)"] = round(floor_err, 3)
+    if floor_err > 6.4:
+        ctx.disagree("float32 percentile error %.2f ulps exceeds a tenth of the 64-ulp safety distance" % floor_err,
+                     {"kind": "harness"})
     ctx.measurements["recordings_outside_the_property_domain_observed_only"] = len(observations)
     ctx.notes.extend(sorted(set(observations))[:6])
     common.correspondence(ctx, PROP, HEADER, inputs, outputs, lambda i: owners[i], n_kernel=60)
@@ -1095,8 +1270,15 @@ def replay(ctx, data):
     if not case or "kind" not in case or case["kind"] not in EXEC:
         print(json.dumps(data, indent=1)[:3000])
         return 1
-    res = execute(case)
+    results, stuck, _ = run_cases([case], budget_s=120, nproc=1, nchunk=1)
     print("case:", json.dumps(case)[:1500])
+    if stuck or 0 not in results:
+        print("the implementation did not return within the time limit, or killed its process")
+        return 1
+    res = results[0]
+    if res.crash:
+        print("the implementation's behaviour could not be canonicalised:", res.crash)
+        return 1
     print("implementation (flat):", (res.out or [])[:80])
     print("property clauses failing on the implementation:", [b[0] for b in res.bad])
     ids = []
